@@ -293,11 +293,33 @@ def addr_fields(st, v):
     raise Unsupported(f"EmailAddress expected, got {v!r}")
 
 
+def parsed_value(c, s):
+    """The string the body hands to email.utils.parseaddr / getaddresses (recorded by their models).  The specification
+    is split in two: (A) the result is the specified mapping of the parse of THAT string, (B) that string is the UNFOLDED
+    header value (RFC 5322 2.2.3: unfolding comes before parsing; a folded quoted display name is otherwise mis-parsed on
+    CRLF mailboxes).  At call sites the full specification (A and B) is what callers get."""
+    if not c.ex.contract or not c.ex.contract.target.endswith(("::parse_email_address", "::parse_email_addresses")):
+        return M.UNFOLD(s)
+    x = c.st.ghost.get("addr_parse_arg")
+    return x if x is not None else s
+
+
+def e_unfolded_before_parsing(c):
+    none, s = opt_parts(c.args["addr_string"])
+    if not c.ex.contract or not c.ex.contract.target.endswith(("::parse_email_address", "::parse_email_addresses")):
+        return z3.BoolVal(True)
+    x = c.st.ghost.get("addr_parse_arg")
+    if x is None:
+        return z3.Or(none, z3.Length(s) == 0)        # nothing was parsed: only right for a missing header
+    return x == M.UNFOLD(s)
+
+
 def pea_contract():
     def spec(c):
         n, s = opt_parts(c.args["addr_string"])
         miss = z3.Or(n, z3.Length(s) == 0)
-        return (z3.If(miss, M.EMPTY, M.dhv_term(z3.BoolVal(False), M.PA_NAME(s))), z3.If(miss, M.EMPTY, M.PA_ADDR(s)))
+        x = parsed_value(c, s)
+        return (z3.If(miss, M.EMPTY, M.dhv_term(z3.BoolVal(False), M.PA_NAME(x))), z3.If(miss, M.EMPTY, M.PA_ADDR(x)))
 
     def e_name(c):
         return addr_fields(c.st, c.result)[0] == spec(c)[0]
@@ -312,7 +334,8 @@ def pea_contract():
     return FnContract(
         target=f"{MBOX}::parse_email_address",
         params=[("addr_string", p_optstr())],
-        ensures=[("name-is-the-decoded-display-name", e_name), ("address-is-the-parsed-address", e_addr)],
+        ensures=[("name-is-the-decoded-display-name", e_name), ("address-is-the-parsed-address", e_addr),
+                 ("header-is-unfolded-before-address-parsing", e_unfolded_before_parsing)],
         raises=[],
         result_maker=result_maker,
         note="(decode_header_value(parseaddr(s)[0]), parseaddr(s)[1]); ('', '') for a missing header",
@@ -335,19 +358,23 @@ def peas_contract():
 
     def hyp(c):
         n, s = s_of(c)
-        return M.cnt_ga_def(s, z3.IntVal(0))
+        return z3.And(M.cnt_ga_def(s, z3.IntVal(0)), M.cnt_ga_def(M.UNFOLD(s), z3.IntVal(0)))
 
     def e_count(c):
-        none, s = s_of(c)
+        none, s0 = s_of(c)
+        miss = z3.Or(none, z3.Length(s0) == 0)
+        s = parsed_value(c, s0)
         t = M.comp_tag(c.st, c.result)
         if t is not None:
             _k, n_src, kp, _el = t
-            return z3.And(z3.Not(z3.Or(none, z3.Length(s) == 0)), n_src == M.GA_N(s), forall(M.GA_N(s), lambda k: kp(k) == keep(s, k), "k!pc"))
+            return z3.And(z3.Not(miss), n_src == M.GA_N(s), forall(M.GA_N(s), lambda k: kp(k) == keep(s, k), "k!pc"))
         n, _el = view(c)
-        return n == z3.If(z3.Or(none, z3.Length(s) == 0), 0, M.CNT_GA(s, M.GA_N(s)))
+        return n == z3.If(miss, 0, M.CNT_GA(s, M.GA_N(s)))
 
     def e_items(c):
-        none, s = s_of(c)
+        none, s0 = s_of(c)
+        miss = z3.Or(none, z3.Length(s0) == 0)
+        s = parsed_value(c, s0)
         t = M.comp_tag(c.st, c.result)
         if t is not None:
             _k, n_src, _kp, el_ = t
@@ -360,10 +387,13 @@ def peas_contract():
         def body(k):
             nm, ad = addr_fields(c.st, el(M.CNT_GA(s, k)))
             return z3.Implies(keep(s, k), z3.And(nm == M.dhv_term(z3.BoolVal(False), M.GA_NAME(s, k)), ad == M.GA_ADDR(s, k)))
-        return z3.Implies(z3.Not(z3.Or(none, z3.Length(s) == 0)), forall(M.GA_N(s), body, "k!pa"))
+        return z3.Implies(z3.Not(miss), forall(M.GA_N(s), body, "k!pa"))
 
     def inv(lc):
-        none, s = opt_parts(lc.entry.lookup("addr_string"))
+        none, s0 = opt_parts(lc.entry.lookup("addr_string"))
+        s = lc.st.ghost.get("addr_parse_arg")
+        if s is None:
+            s = s0
         n, el = built_list(lc, 0, ("obj", "EmailAddress"))
         i = lc.i
 
@@ -383,7 +413,8 @@ def peas_contract():
         target=f"{MBOX}::parse_email_addresses",
         params=[("addr_string", p_optstr())],
         hyps=hyp,
-        ensures=[("one-entry-per-address-of-getaddresses", e_count), ("entries-are-(decoded-name,address)-in-order", e_items)],
+        ensures=[("one-entry-per-address-of-getaddresses", e_count), ("entries-are-(decoded-name,address)-in-order", e_items),
+                 ("header-is-unfolded-before-address-parsing", e_unfolded_before_parsing)],
         raises=[],
         loops={0: LoopSpec(inv=inv, label="addresses")},
         result_maker=result_maker,
@@ -485,8 +516,8 @@ def pem_spec(m):
     return {
         "subject": STRIP(M.dhv(h("Subject"))),
         "in_reply_to": STRIP(M.dhv(h("In-Reply-To"))),
-        "from_name": z3.If(fmiss, M.EMPTY, M.dhv_term(z3.BoolVal(False), M.PA_NAME(fs))),
-        "from_addr": z3.If(fmiss, M.EMPTY, M.PA_ADDR(fs)),
+        "from_name": z3.If(fmiss, M.EMPTY, M.dhv_term(z3.BoolVal(False), M.PA_NAME(M.UNFOLD(fs)))),
+        "from_addr": z3.If(fmiss, M.EMPTY, M.PA_ADDR(M.UNFOLD(fs))),
         "date": M.date_spec(m),
         "message_id": STRIP(M.dhv(h("Message-ID"))),
         "body_plain": STRIP(M.body_plain_spec(m)),
@@ -673,9 +704,15 @@ def att_ok(st, v, a):
     return z3.And(fn == or_default(a, "filename", "attachment"), mt == mime, content == M.ATT_BYTES(a), flag == sup_mime(mime))
 
 
-def mail_addr_list_matches(st, v, mail, field):
+UNFOLD_IDEM = z3.ForAll([z3.String("x!uf")], M.UNFOLD(M.UNFOLD(z3.String("x!uf"))) == M.UNFOLD(z3.String("x!uf")),
+                        patterns=[M.UNFOLD(M.UNFOLD(z3.String("x!uf")))])      # unfolding an unfolded value changes nothing
+
+
+def mail_addr_list_matches(st, v, mail, field, names="mapping"):
     """Bool: list v == [EmailAddress(n, a) for (n, a) in mail.<field> if a] (the recipients that carry an address), decided
-    on the structure of the comprehension that built v: same source, same filter, same elements (pointwise)."""
+    on the structure of the comprehension that built v: same source, same filter, same elements (pointwise).
+    names="mapping": display names compared up to RFC 5322 unfolding (which entry, which address, which name);
+    names="unfolded": every display name is the UNFOLDED name mailparser reports (mailparser keeps the folding)."""
     f = z3.StringVal(field)
     n_spec = M.ML_N(mail, f)
     tag = M.seq_tag(st, v)
@@ -692,7 +729,9 @@ def mail_addr_list_matches(st, v, mail, field):
         if isinstance(e, VUnk):
             raise M.ShapeUnknown("value built by the code has a shape this clause does not read")
         nm, ad = addr_fields(st, e)
-        return z3.And(keep(k) == (z3.Length(M.ML_ADDR(mail, f, k)) > 0), nm == M.ML_NAME(mail, f, k), ad == M.ML_ADDR(mail, f, k))
+        if names == "unfolded":
+            return z3.Implies(z3.Length(M.ML_ADDR(mail, f, k)) > 0, nm == M.UNFOLD(M.ML_NAME(mail, f, k)))
+        return z3.And(keep(k) == (z3.Length(M.ML_ADDR(mail, f, k)) > 0), M.UNFOLD(nm) == M.UNFOLD(M.ML_NAME(mail, f, k)), ad == M.ML_ADDR(mail, f, k))
     return z3.And(n == n_spec, forall(n_spec, body, "k!mlm"))
 
 
@@ -739,7 +778,20 @@ def eml_contract():
     def e_from(c):
         nm, ad = addr_fields(c.st, data(c)["from_email"])
         sp = eml_spec(mail_of(c))
-        return z3.And(nm == sp["from_name"], ad == sp["from_addr"])
+        return z3.And(M.UNFOLD(nm) == M.UNFOLD(sp["from_name"]), ad == sp["from_addr"])
+
+    def e_names_unfolded(c):
+        if not verifying(c, "::_read_eml_format"):
+            return z3.BoolVal(True)
+        mail = mail_of(c)
+        nm, _ad = addr_fields(c.st, data(c)["from_email"])
+        out = [nm == M.UNFOLD(eml_spec(mail)["from_name"])]
+        for field, src in EML_LISTS.items():
+            r = mail_addr_list_matches(c.st, data(c)[field], mail, src, names="unfolded")
+            if r is None:
+                raise M.ShapeUnknown("list not built by a comprehension over the mail's entries")
+            out.append(r)
+        return z3.And(out)
 
     def e_list(field):
         def e(c):
@@ -789,13 +841,14 @@ def eml_contract():
     return FnContract(
         target=f"{EML}::_read_eml_format",
         params=[("payload", p_str())],
-        hyps=lambda c: STRIP_EMPTY,
+        hyps=lambda c: z3.And(STRIP_EMPTY, UNFOLD_IDEM, M.UNFOLD(M.EMPTY) == M.EMPTY),
         ensures=[("subject-is-the-decoded-subject", f_str(("subject",), "subject")),
                  ("from_email-is-the-first-From-entry-or-empty", e_from),
                  ("to_emails-are-the-To-entries-with-an-address", e_list("to_emails")),
                  ("to_cc-are-the-Cc-entries-with-an-address", e_list("to_cc")),
                  ("to_bcc-are-the-Bcc-entries-with-an-address", e_list("to_bcc")),
                  ("reply_to-are-the-Reply-To-entries-with-an-address", e_list("reply_to")),
+                 ("display-names-are-unfolded", e_names_unfolded),
                  ("in_reply_to-is-In-Reply-To", f_str(("in_reply_to",), "in_reply_to")),
                  ("date-is-the-ISO-date-or-empty", f_str(("metadata", "date"), "date")),
                  ("message_id-is-Message-ID", f_str(("metadata", "message_id"), "message_id")),
@@ -1247,6 +1300,56 @@ def frame_obligations(repo, tier):
         "functions": [dict(dt.fn_info("FileMetadataInterface.populate_from_path"), obligations=1)] if fn is not None else []}
 
 
+# The type the standard MIME registry (IANA, as shipped in Python's `mimetypes`) assigns to the extensions the router accepts.
+# (`dot` is left out: the registry gives it to Graphviz, the router to Word templates.)  Whatever sends a supported file as an
+# attachment -- the stdlib generator in particular -- announces it with this type.
+STANDARD_TYPES = {
+    '7z': 'application/x-7z-compressed', 'csv': 'text/csv', 'doc': 'application/msword', 'docm': 'application/vnd.ms-word.document.macroEnabled.12',
+    'docx': 'application/vnd.openxmlformats-officedocument.wordprocessingml.document', 'dotm': 'application/vnd.ms-word.template.macroEnabled.12',
+    'dotx': 'application/vnd.openxmlformats-officedocument.wordprocessingml.template', 'eml': 'message/rfc822', 'epub': 'application/epub+zip',
+    'htm': 'text/html', 'html': 'text/html', 'json': 'application/json', 'mbox': 'application/mbox', 'md': 'text/markdown', 'mht': 'message/rfc822',
+    'mhtml': 'message/rfc822', 'odf': 'application/vnd.oasis.opendocument.formula', 'odg': 'application/vnd.oasis.opendocument.graphics',
+    'odp': 'application/vnd.oasis.opendocument.presentation', 'ods': 'application/vnd.oasis.opendocument.spreadsheet',
+    'odt': 'application/vnd.oasis.opendocument.text', 'otp': 'application/vnd.oasis.opendocument.presentation-template',
+    'ots': 'application/vnd.oasis.opendocument.spreadsheet-template', 'ott': 'application/vnd.oasis.opendocument.text-template', 'pdf': 'application/pdf',
+    'pot': 'text/plain', 'potm': 'application/vnd.ms-powerpoint.template.macroEnabled.12',
+    'potx': 'application/vnd.openxmlformats-officedocument.presentationml.template', 'pps': 'application/vnd.ms-powerpoint',
+    'ppsm': 'application/vnd.ms-powerpoint.slideshow.macroEnabled.12', 'ppsx': 'application/vnd.openxmlformats-officedocument.presentationml.slideshow',
+    'ppt': 'application/vnd.ms-powerpoint', 'pptm': 'application/vnd.ms-powerpoint.presentation.macroEnabled.12',
+    'pptx': 'application/vnd.openxmlformats-officedocument.presentationml.presentation', 'rtf': 'application/rtf', 'tar': 'application/x-tar',
+    'tsv': 'text/tab-separated-values', 'txt': 'text/plain', 'xls': 'application/vnd.ms-excel', 'xlsm': 'application/vnd.ms-excel.sheet.macroEnabled.12',
+    'xlsx': 'application/vnd.openxmlformats-officedocument.spreadsheetml.sheet', 'xlt': 'application/vnd.ms-excel',
+    'xltm': 'application/vnd.ms-excel.template.macroEnabled.12', 'xltx': 'application/vnd.openxmlformats-officedocument.spreadsheetml.template',
+    'zip': 'application/zip',
+}
+
+
+def mime_table_obligations(repo, tier):
+    """"A supported attachment extracts to the same content as the attached file on its own": a file the router accepts by its
+    extension must be accepted as an attachment when it is announced with the standard MIME type of that extension, i.e.
+    is_supported_mime_type(standard type) -- the table MIME_TYPE_MAPPING, evaluated from the real source -- is True (routing is by
+    name first, so the extractor is then the file's own).  One obligation per routable extension; plus well-formedness of the
+    table's keys (a generated table whose rows are strings instead of tuples yields single characters)."""
+    import re
+    from contracts import C07
+    REG, ALI, _COMP, MIMES = C07.tables(repo)
+    obls = []
+    bad = [k for k in MIMES if not re.fullmatch(r"[A-Za-z0-9][A-Za-z0-9!#$&^_.+-]*/[A-Za-z0-9][A-Za-z0-9!#$&^_.+-]*", k)]
+    obls.append(ground_obligation("C16/mime_types.py::MIME_TYPE_MAPPING/module-invariant#keys-are-type/subtype-names", not bad and len(MIMES) > 0,
+                                  f"not MIME type names: {bad[:12]}", MIME, kind="module-invariant", backend="ground"))
+    routable = set(REG) | set(ALI)
+    for ext in sorted(STANDARD_TYPES):
+        if ext not in routable:
+            continue
+        mt = STANDARD_TYPES[ext]
+        # MIME type names are case-insensitive; Message.get_content_type() (hence mailparser) reports them in lower case
+        ok = mt in MIMES and mt.lower() in MIMES
+        obls.append(ground_obligation(f"C16/mime_types.py::MIME_TYPE_MAPPING/policy#standard-type-of-.{ext}-attachments-is-supported", ok,
+                                      f".{ext} files are announced as {mt}; is_supported_mime_type: as registered {mt in MIMES}, as the parsers report it "
+                                      f"({mt.lower()}) {mt.lower() in MIMES}", MIME, kind="policy", backend="ground"))
+    return {"obligations": obls, "functions": []}
+
+
 def _guarded_extra(fn, oid):
     """an EXTRA never crashes the check: an exception inside pack code on a changed tree is an unrecognised shape -> `unknown`"""
     def run(repo, tier):
@@ -1259,7 +1362,8 @@ def _guarded_extra(fn, oid):
 
 
 EXTRA = [_guarded_extra(pattern_obligations, "C16/mbox_email_extractor.py::MBOX_FROM_PATTERN/module-invariant#pattern-is-a-compiled-bytes-literal"),
-         _guarded_extra(frame_obligations, "C16/data_types.py::FileMetadataInterface.populate_from_path/frame#assigns-only-file-metadata-fields")]
+         _guarded_extra(frame_obligations, "C16/data_types.py::FileMetadataInterface.populate_from_path/frame#assigns-only-file-metadata-fields"),
+         _guarded_extra(mime_table_obligations, "C16/mime_types.py::MIME_TYPE_MAPPING/module-invariant#keys-are-type/subtype-names")]
 REPLAY_UNKNOWN = True      # an obligation the solver leaves unknown is searched natively (replay/C16.py) before it is reported undecided
 
 
